@@ -697,3 +697,38 @@ def const_identity_run(ck, rule):
     ck.ob(rule, "block:Const :: abstract run :: equal containers with elements of different kinds", not bad_nested,
           "tuples that compare equal but hold elements of different kinds do not share an object" if not bad_nested
           else '; '.join(bad_nested[:1]), new_, new_.node)
+
+
+# --------------------------------------------------------------------------- one-shot arguments
+def argument_not_consumed_before_tuple(ck, rule, fids=('block:event_tuple', 'block:efilter_tuple')):
+    """Events, filters and inputs may be given as an iterator (accepted by _is_multiple, deprecated): the
+    argument can be traversed once.  The normalising helpers therefore must not iterate it before
+    _to_tuple turns it into a tuple - whatever they would look at is missing from the tuple afterwards."""
+    HARMLESS = {'_to_tuple', '_is_multiple', 'isinstance', 'callable', 'type', 'id', 'hasattr', 'repr'}
+    prog = ck.prog
+    for fid in fids:
+        fi = prog.func(fid)
+        p = fi.node.args.args[0].arg
+        own_ = []
+        stack = list(fi.node.body)
+        while stack:                      # the function's own statements, nested defs excluded
+            x = stack.pop()
+            own_.append(x)
+            for ch in ast.iter_child_nodes(x):
+                if not isinstance(ch, (ast.FunctionDef, ast.AsyncFunctionDef, ast.Lambda, ast.ClassDef)):
+                    stack.append(ch)
+        hit = None
+        for x in own_:
+            if isinstance(x, (ast.For, ast.comprehension)) and any(
+                    isinstance(y, ast.Name) and y.id == p for y in ast.walk(x.iter)):
+                hit = hit or x.iter
+            if isinstance(x, ast.Call) and call_name(x) not in HARMLESS and any(
+                    isinstance(a, ast.Name) and a.id == p for a in list(x.args) + [k.value for k in x.keywords]):
+                hit = hit or x
+            if isinstance(x, ast.Starred) and isinstance(x.value, ast.Name) and x.value.id == p:
+                hit = hit or x
+        ck.ob(rule, f"{fid} :: argument traversed once", hit is None,
+              f"`{p}` reaches _to_tuple untouched" if hit is None else
+              f"`{norm(hit)[:60]}` traverses `{p}` before _to_tuple does: given as an iterator (generator "
+              "expression, map, iter(...)) it is exhausted here and the resulting tuple is empty - the event is "
+              "sent without its filters / the block has no output events", fi, hit if hit is not None else fi.node)
